@@ -43,7 +43,7 @@ pub fn pick_cuckoo(r: &mut FastRng, max_slots: usize) -> CuckooCfg {
     loop {
         let bucketsize = *r.pick(&[2usize, 2, 3, 4, 4, 5, 7, 8]);
         let n_buckets = 1usize << (1 + r.below(6)); // 2..64
-        let l = *r.pick(&[2usize, 3, 4, 5, 8, 8, 13, 16, 32, 63, 64]);
+        let l = *r.pick(&[2usize, 3, 4, 5, 8, 8, 13, 16, 31, 32, 33, 40, 48, 63, 64]);
         if bucketsize * n_buckets > max_slots {
             continue;
         }
@@ -54,6 +54,17 @@ pub fn pick_cuckoo(r: &mut FastRng, max_slots: usize) -> CuckooCfg {
             bh: pick_hasher(r),
             rng: pick_rng(r),
         };
+    }
+}
+
+/// rare shapes: buckets wider than 256 slots (slot-in-bucket no longer fits a byte)
+pub fn pick_cuckoo_wide_bucket(r: &mut FastRng) -> CuckooCfg {
+    CuckooCfg {
+        bucketsize: *r.pick(&[257usize, 300, 511]),
+        n_buckets: 2,
+        l: *r.pick(&[8usize, 16, 33]),
+        bh: CtlBuildHasher::new(HMode::Mix, r.next()),
+        rng: pick_rng(r),
     }
 }
 
@@ -129,6 +140,15 @@ pub fn qf_universe(cfg: &QfCfg, r: &mut FastRng, size: usize) -> Vec<u64> {
         }
         if seen.insert(k) {
             u.push(k);
+        }
+        // single-bit neighbours: keys whose fingerprints differ in exactly one (often high) bit, so a
+        // truncated comparison or a narrowed copy of a remainder / quotient makes them collide
+        if fp_bits > 1 && r.chance(0.3) && u.len() < size {
+            let bit = if r.chance(0.6) { fp_bits - 1 - r.below(fp_bits.min(34) as u64) as usize } else { r.below(fp_bits as u64) as usize };
+            let k2 = (k ^ (1u64 << bit)) & if fp_bits >= 64 { u64::MAX } else { (1u64 << fp_bits) - 1 };
+            if seen.insert(k2) {
+                u.push(k2);
+            }
         }
     }
     u
